@@ -872,4 +872,7 @@ def run(chk):
     T_G = (FIND % (gn, gn, gn)) + " == this.actions.end()"
     plain_table(gf, [T_G], lambda v: "throw" if v[T_G] else "*" + FIND % (gn, gn, gn), "operator[](name) gives the action of that name")
 
+    from verif import fallthrough
+    fallthrough.run(chk, "C18", floor=5)
+
     chk.assumptions += ["documented ACTIONX condition syntax (AND binds tighter than OR; .GT. style aliases) as frozen in rules/C18.py"]
